@@ -291,9 +291,37 @@ pub fn gen_undefined_header(rng: &mut Rng, tc: &TreeCtx, level: &[usize], first:
         };
         let (colon, mut path) = spell_header(rng, tc, &leaf, level, first, 30);
         let kind: &'static str;
-        let k = rng.below(9);
+        let k = rng.below(11);
         let idx = rng.usize_below(path.len());
         match k {
+            10 => {
+                // the name of a node repeated one level below it (A:A)
+                if path[idx].starts_with('*') {
+                    continue;
+                }
+                let again = path[idx].clone();
+                path.insert(idx + 1, again);
+                kind = "name_repeated_below_itself";
+            }
+            9 => {
+                // the right letters with a huge / aliasing numeric suffix
+                if path[idx].starts_with('*') {
+                    continue;
+                }
+                let (alpha, suf) = split_suffix(&path[idx]);
+                let cur: u64 = suf.and_then(|s| s.parse().ok()).unwrap_or(1);
+                let new = match rng.below(4) {
+                    0 => format!("{}{}", alpha, cur + 256),
+                    1 => format!("{}{}", alpha, cur + 65536),
+                    2 => format!("{}{}", alpha, 70000 + rng.below(9_000_000)),
+                    _ => format!("{}{}", alpha, cur + 512),
+                };
+                if new.len() > 12 {
+                    continue;
+                }
+                path[idx] = new;
+                kind = "aliasing_or_huge_suffix";
+            }
             7 | 8 => {
                 // relative header that designates a node from some OTHER level (an ancestor of
                 // the current level, or the root) but nothing from the current one
@@ -581,7 +609,7 @@ pub fn apply_header_fault(rng: &mut Rng, u: &mut Unit, kind: &str) -> bool {
         }
         "hash_in_header" => {
             let mut v = hdr.clone();
-            v.extend_from_slice(b"#H1");
+            v.extend_from_slice(pickb(rng, &[&b"#H1"[..], &b"#HFFFFFFFFFFFFFFFFFF"[..], &b"#B1"[..], &b"#15abcde"[..], &b"#Q7777777777777777777777777"[..]]));
             v
         }
         "illegal_char_in_header" => {
@@ -632,6 +660,27 @@ pub const PARAM_FAULTS: &[&str] = &[
     "illegal_char_as_data",
     "query_mark_in_params",
     "signed_block_length",
+    "char_too_long",
+    "suffix_too_long",
+];
+
+/// parameter faults that are errors of one element (the tokenizer keeps reporting them at that
+/// element), as opposed to separator-level faults
+pub const ELEMENT_FAULTS: &[&str] = &[
+    "char_13_chars",
+    "suffix_13_chars",
+    "block_bad_length",
+    "signed_block_length",
+    "non_ascii_in_string",
+    "non_ascii_in_expression",
+    "illegal_char_in_expression",
+    "nondecimal_bad_digit",
+    "nondecimal_no_digits",
+    "number_no_digits",
+    "exponent_no_digits",
+    "bad_radix_letter",
+    "illegal_char_as_data",
+    "query_mark_in_params",
     "char_too_long",
     "suffix_too_long",
 ];
